@@ -785,6 +785,11 @@ func evalFunc(env any, name string, args []object.Object) object.Object {
 	s := env.(*eval.State)
 	res, err := eval.EvalString(s, str, name == "unjson" /* empty env */)
 	if err != nil {
+		if s.Context != nil && s.Context.Err() != nil && res != nil && res.Type() == object.ERROR {
+			// Out of time / canceled: return that as is. Re-wrapping the error at every level makes
+			// the unwinding of nested evals quadratic (returning long after the deadline).
+			return res
+		}
 		return s.Error(err)
 	}
 	return res
